@@ -5,6 +5,7 @@ go 1.16
 require (
 	github.com/anishathalye/porcupine v1.3.0
 	github.com/pingcap/check v0.0.0-20200212061837-5e12011dc712
+	github.com/pingcap/failpoint v0.0.0-20200702092429-9f69995143ce
 	github.com/pingcap/kvproto v0.0.0-20210604082642-dda0a102bc6a
 	github.com/pingcap/log v0.0.0-20210317133921-96f4fcab92a4
 	github.com/tikv/pd v0.0.0
